@@ -8,6 +8,7 @@ import DateutilVerif.Ops.CacheOps
 import DateutilVerif.Ops.Factory
 import DateutilVerif.Ops.ICal
 import DateutilVerif.Ops.IsoParser
+import DateutilVerif.Ops.NestedOps
 import DateutilVerif.Ops.Parser
 import DateutilVerif.Ops.QueryOps
 import DateutilVerif.Ops.RRule
@@ -19,7 +20,7 @@ import DateutilVerif.Ops.TzStr
 import DateutilVerif.Ops.Zones
 
 def handlers : List (String → List String → Option String) :=
-  [Ops.Base.handle, Ops.CacheOps.handle, Ops.Factory.handle, Ops.ICal.handle, Ops.IsoParser.handle, Ops.Parser.handle, Ops.QueryOps.handle, Ops.RRule.handle, Ops.RRuleStr.handle, Ops.RSetOps.handle, Ops.RelativeDelta.handle, Ops.ReplaceOps.handle, Ops.TzStr.handle, Ops.Zones.handle]
+  [Ops.Base.handle, Ops.CacheOps.handle, Ops.Factory.handle, Ops.ICal.handle, Ops.IsoParser.handle, Ops.NestedOps.handle, Ops.Parser.handle, Ops.QueryOps.handle, Ops.RRule.handle, Ops.RRuleStr.handle, Ops.RSetOps.handle, Ops.RelativeDelta.handle, Ops.ReplaceOps.handle, Ops.TzStr.handle, Ops.Zones.handle]
 
 def dispatch (line : String) : String :=
   match (line.trimAscii.toString.splitOn " ").filter (· ≠ "") with
